@@ -96,6 +96,12 @@ PROPS.update({
         "rule": "worlds: 1..5 (thorough 8) tasks, each one simulated process writing a seeded stream (lines of 0..10000 bytes, LF / CRLF / lone CR, well-formed CSI sequences, unicode, digits and brackets next to sequences, unterminated tail) cut into write calls at seeded points (also inside CRLF, a CSI sequence or a rune), a share of chunks on stderr; chunk writes of different tasks interleaved one at a time by the controller; task outcomes success / failure / skipped / failing before-hook; every world is run under raw, prefixed and cockpit (index mod 3). Oracles: raw sink == chunks in delivery order; prefixed: every sink write is one whole line carrying the name of the task whose chunk is being delivered, per-task payload == stream after removing terminators and CSI sequences; result fields equal across the three formats; no crash. distinct = canonical event-log hash; all runs non-trivial",
         "assumptions": _INTEG_ASSUME + ["hooks print nothing in these worlds (their output bypasses the decorator by design)", "races inside briandowns/spinner are out of reach (its goroutine only runs between controller steps)"],
     },
+    "C20": {
+        "level": "exploration",
+        "parts": [{"engine": "watch", "profile": "c20", "weight": 1}],
+        "rule": "worlds: a real temporary tree (<=4 directories on 3 levels, <=10 files), 1..3 include and 0..2 exclude patterns from the grammar (literal, *, ?, ** as a whole segment), a subset of the five event names (or none = all), built by the real watch.NewWatcher; a history of 1..4 (thorough 6) injected fsnotify events (create/write/remove/rename/chmod, also combined and zero ops as noise) on observed paths or children of observed directories, a quarter of them arriving while the previously triggered run is still executing; fake 1 s poll. Oracles: selected path set == reference matcher (set-up invariant, pure part); per event: the task ran exactly once more with EventName/EventPath of that event iff its type is subscribed; every event is taken from the channel (keeps serving); initial run once. distinct = canonical event-log hash; non-trivial = world with >=1 observed path and >=1 event",
+        "assumptions": ["inotify and fsnotify's reader are not exercised: events are injected into the channel the watcher polls", "events are only injected for observed paths (the kernel would not deliver others)", "combined / zero ops are injected but not constrained (the statement does not say which type they are)", "sampling, not proof"],
+    },
     "C14": {
         "level": "exploration",
         "parts": [{"engine": "fault", "profile": "c14", "weight": 1}],
@@ -127,6 +133,7 @@ _TXT.update({
     "C12": ("fault_enumeration", "Cancel is injected at every step index of each sampled run (plus before the run, after it, twice, via a condition error); rules: process survives, Cancel returns, run returns, running commands interrupted, nothing starts after Cancel returned, no interrupted/unstarted task reports success.", "enumeration is over controller steps of sampled worlds and schedules, not over all worlds"),
     "C08": ("exploration", "Real config loader + scheduler + runner over one shared task object; what every simulated process actually receives (env, argv, dir) is compared with 'task settings overlaid by this stage's overrides' for overlapping and sequential stages, a second pipeline and a direct run.", "sampled configurations and schedules"),
     "C19": ("exploration", "The real decorators and TaskOutput tee receive seeded streams in seeded chunkings from up to 8 interleaved simulated processes; the recording sink is compared with a stripping model write by write; each world is repeated under the three formats and the recorded task results must agree; a panic in the output layer kills the worker and is attributed to the seed.", "reference CSI stripper covers the generated well-formed sequences only; comparison uses the reading most favourable to the implementation (terminators removed before sequences)"),
+    "C20": ("exploration", "The real watcher loop, event filter, handle() and TaskRunner run on the fake clock against injected event histories; what the simulated task processes receive (EventName/EventPath) decides. The path-selection half of the statement is a pure function and is checked as a set-up invariant against a reference glob matcher on every generated tree.", "event delivery by the kernel is stubbed; the reference matcher covers the generated pattern grammar only"),
     "C14": ("exploration", "Hook exec history per context compared with the statement: up once and finished before anything else of the context (also for tasks racing into Up while it runs), before/after exactly once around each task execution (per-goroutine pattern), down once at Finish for used contexts only.", "sampled worlds and schedules; CLI part (Finish on failed targets) covered by the CLI profile"),
     "C13": ("fault_enumeration", "The overrunning command is placed at every position of each sampled task under six process shapes; deadlines are compared exactly on the fake clock (start+timeout per command).", "positions x shapes are enumerated per sampled task; tasks and timeouts are sampled"),
 })
@@ -142,7 +149,6 @@ NOT_APPLICABLE = [
     {"property_id": "C16", "reason": "format equivalence of three decoders is pure"},
     {"property_id": "C17", "reason": "import closure is a pure function of a directory tree; termination is recursion on a finite structure, not a schedule"},
     {"property_id": "C18", "reason": "load-time reference validation is pure; needs malformed inputs, not schedules or faults"},
-    {"property_id": "C20", "reason": "TEMPORARY: WATCH engine under construction (claimed in DESIGN.md)"},
 ]
 
 MANIFEST_TEXT = {
